@@ -351,6 +351,7 @@ func runC08(c *Ctx) {
 		}
 	}
 	runSharedForward(c)
+	runForwardAfterPeerReplaced(c)
 	topos := []topo{
 		{"bus-pair", false, 2, [][2]int{{0, 1}}},
 		{"bus-mesh3", false, 3, [][2]int{{0, 1}, {0, 2}, {1, 2}}},
